@@ -77,6 +77,8 @@ type config struct {
 	PublicationExempt []pubExempt `json:"publication_exempt"`
 	// reviewed path conditions: the function returns at once unless the listed types are still unpublished
 	OnceGuards []onceGuard `json:"once_guards"`
+	// "function field" -> why handing out the slice / map header of the guarded field is harmless (reviewed)
+	EscapeExempt map[string]string `json:"escape_exempt"`
 	// function -> why its close(ch) runs at most once per channel (reviewed)
 	CloseOnce map[string]string `json:"close_once"`
 	// packages (import paths) that are not part of the server: not loaded as roots
